@@ -67,7 +67,7 @@ func (a *application) start(mode gen.ApplicationMode, options gen.ApplicationOpt
 
 		opts.Args = item.Args
 
-		pid, err := a.node.spawn(item.Factory, opts)
+		pid, err := a.node.spawnMember(item.Factory, opts, a)
 		if err != nil {
 			// do not kill while iterating: killing a sleeping process
 			// terminates it synchronously and re-enters a.group
